@@ -3,6 +3,7 @@
    The concrete step is Outcome.new_defs (plugin_outcome.go) on the votes of Observe.honest_votes (plugin_observation.go). *)
 From stdpp Require Import gmap.
 From DS Require Import Base RepoConstants StreamValue Outcome OutcomeCodec Observe ObservationCodec Converge ConvergeProofs ValidateProofs.
+From DS Require OutcomeEndToEnd ReportsNoPanic OutcomeRoundTrip NvE2E.
 
 (* the two vote limits in /repo are equal and positive, so the property's bound ceil(max(#remove, #add-or-replace)/5) applies *)
 Example C14_gen_limits : rm_limit = vote_limit /\ (0 < vote_limit)%nat /\ vote_limit = 5%nat /\ chan_cap = 2000%nat.
@@ -49,6 +50,25 @@ Theorem C14_observation_validates : forall codec_ok cf seq prev_bytes now cache_
   validate_observation codec_ok (c_has_pred cf) ob = true.
 Proof. exact plugin_observation_validates. Qed.
 Print Assumptions C14_observation_validates.
+
+(* ... and on the wire: the BYTES a correct node sends (its observation marshalled in any map order) pass the whole of
+   Plugin.ValidateObservation (sequence guard, decode, limits, definition verification) of every correct node *)
+Theorem C14_correct_bytes_validate : forall codec_ok cf seq prev_bytes (i : OutcomeEndToEnd.obs_inp) rms ups vals ro,
+  ReportsNoPanic.bok prev_bytes ->
+  OutcomeEndToEnd.inputs_wf (OutcomeEndToEnd.oi_now i) (OutcomeEndToEnd.oi_expected i) (OutcomeEndToEnd.oi_vals i) ->
+  (forall s v, OutcomeEndToEnd.oi_vals i !! s = Some v -> match v with STsv _ (SDec _) => True | STsv _ _ => False | _ => True end) ->
+  OutcomeEndToEnd.observe codec_ok cf seq prev_bytes i = Ok (Some ro) ->
+  Permutation rms (ro_removes ro) -> Permutation ups (map_to_list (ro_updates ro)) ->
+  Permutation vals (map_to_list (ro_values ro)) -> OutcomeRoundTrip.small (encode_observation rms ups vals ro) ->
+  plugin_validate codec_ok (c_has_pred cf) seq (encode_observation rms ups vals ro) = Ok tt.
+Proof. exact OutcomeEndToEnd.correct_bytes_validate. Qed.
+Print Assumptions C14_correct_bytes_validate.
+(* non-vacuity: the three correct senders of props/NvE2E.v (C06 round: votes to add channel 7) *)
+Example C14_nv_bytes_validate :
+  OutcomeEndToEnd.lsenders_ok (fun _ => true) NvHistory.nv_cf 2 NvE2E.e6_prev_bytes NvE2E.e6_ss /\
+  plugin_validate (fun _ => true) false 2
+    (match OutcomeEndToEnd.lsent (fun _ => true) NvHistory.nv_cf 2 NvE2E.e6_prev_bytes (List.hd (OutcomeEndToEnd.LFaulty []) NvE2E.e6_ss) with Some b => b | None => [] end) = Ok tt.
+Proof. split; [exact NvE2E.e6_senders_ok|vm_compute; reflexivity]. Qed.
 Theorem C14_verify_defs_monotone : forall codec_ok (m1 m2 : gmap Z chandef),
   m1 ⊆ m2 -> verify_defs codec_ok m2 = true -> verify_defs codec_ok m1 = true.
 Proof. exact verify_defs_mono. Qed.
